@@ -433,7 +433,7 @@ func c18Worker(c *mc.Ctx) {
 		return
 	}
 	st3.RunLimit = 5 * time.Minute // on the unchanged tree the pass takes seconds
-	rr := st3.Run("c18race", rp, c18RaceMain, true, []string{"GORACE=halt_on_error=0"})
+	rr := st3.Run("c18race", rp, c18RaceMain, true, []string{"GORACE=halt_on_error=1"})
 	switch {
 	case rr.BuildErr != "":
 		c.Stats.HarnessError("stage-3 build (-race): %s", firstLine(rr.BuildErr))
